@@ -779,6 +779,7 @@ impl Transaction {
 		let commit_timestamp = self.core.opts.clock.now();
 
 		// Add all entries to the batch
+		let mut result = Ok(());
 		for entry in latest_writes {
 			// Use the entry's timestamp if it was explicitly set (via set_at),
 			// otherwise use the commit timestamp
@@ -787,21 +788,29 @@ impl Transaction {
 			} else {
 				commit_timestamp
 			};
-			batch.add_record(entry.kind, entry.key, entry.value, timestamp)?;
+			result = batch.add_record(entry.kind, entry.key, entry.value, timestamp);
+			if result.is_err() {
+				break;
+			}
 		}
 
 		// Write the batch to storage. The pipeline runs the oracle.check +
 		// seq alloc + oracle.publish + WAL atomically under `write_mutex`,
 		// then runs memtable apply OUTSIDE the lock.
-		let should_sync = self.durability == Durability::Immediate;
-		self.core.commit(batch, should_sync, self.start_seq_num).await?;
+		if result.is_ok() {
+			let should_sync = self.durability == Durability::Immediate;
+			result = self.core.commit(batch, should_sync, self.start_seq_num).await;
+		}
 
-		// Mark the transaction as closed and release the watermark slot.
+		// The pending writes have been moved out of the transaction above, so it
+		// is finished whether or not the commit succeeded: mark it closed (a
+		// failed transaction must not look like an empty, committable one) and
+		// release the watermark slot.
 		self.closed = true;
 		if let Some(mut g) = self.txn_guard.take() {
 			g.release();
 		}
-		Ok(())
+		result
 	}
 
 	pub fn rollback(&mut self) {
